@@ -335,7 +335,22 @@ func (r *rng) genArithCase(ops []string, specialPct int, aliasing bool, allowP0 
 		// target exponent relative to x's exponent and digits, and to etiny/emax
 		nd := int(c.X.NumDigits())
 		xe := int(c.X.Exponent)
-		switch r.intn(8) {
+		pickE := r.intn(8)
+		if r.coin(3) {
+			pickE = 8
+		}
+		switch pickE {
+		case 8: // the target lies more than MaxExponent below the operand's exponent: the scaling power is refused and
+			// nothing is computed; also down to the edge of int32, where a negated difference wraps
+			gap := r.pick([]int{100001, 100002, 150000, 200001})
+			e := xe - gap
+			if e < -100000 {
+				e = xe - r.pick([]int{1 << 30, 1<<31 - 1, 1 << 31})
+			}
+			if e < math.MinInt32 {
+				e = math.MinInt32
+			}
+			c.E = int32(e)
 		case 0:
 			c.E = int32(xe)
 		case 1:
